@@ -229,6 +229,16 @@ def run_word(spec, res):
             if consec == 1:
                 prev_gap = None
                 ratio = ratio
+            # ... and for the attempt limit: an out-of-range answer is a failed attempt like any other
+            if spec["limit"] and consec >= spec["limit"]:
+                res.hit("limit_failures")
+                if not failed_start or fail_t > prev_fail_known + 1e-6:
+                    res.violate("limit/start-deferred-not-failed-after-n-failures/out-of-range-last", "%d consecutive "
+                                "failed attempts, the last one answered OffsetOutOfRange (limit %d), but the start "
+                                "Deferred %s" % (consec, spec["limit"], "failed only later" if failed_start else
+                                                 "has not failed"), word=word)
+                res.ob("attempt_limit")
+                break
             continue
         # a failure: error code or silence
         consec += 1
